@@ -314,6 +314,9 @@ func runC11(r *RunCtx) error {
 	if len(shortCreatorAccepted) > 0 {
 		r.Sum.Notes = append(r.Sum.Notes, fmt.Sprintf("observation: ValidateBasic of %d message types accepts a creator that is valid bech32 with the jkl prefix but 5 bytes long (GetSigners panics on it; the transaction is rejected by baseapp's panic recovery, nobody is impersonated): %s", len(shortCreatorAccepted), strings.Join(shortCreatorAccepted, " ")))
 	}
+	if err := c11SignBytes(r, reg, urls); err != nil {
+		return err
+	}
 	if err := c11Frames(r); err != nil {
 		return err
 	}
